@@ -35,7 +35,9 @@ def gen(tier, seed):
     P, M = (3, 2) if tier == "quick" else (4, 3)
     vecs = shape_vectors(P, M)
     nrand = 40 if tier == "quick" else 300
-    vecs += [random_vector(rnd, pmax=4 if tier == "quick" else 5, big=(i % 4 == 0)) for i in range(nrand)]
+    # huge rational knots only up to degree 3: the naive recursion on 30-digit rationals at degree 5 costs minutes per case
+    vecs += [random_vector(rnd, pmax=4 if tier == "quick" or i % 4 == 0 else 5,
+                           big=(i % 4 == 0)) for i in range(nrand)]
     cases = []
     for v in vecs:
         U, p = v["U"], v["p"]
